@@ -694,3 +694,45 @@ def wide_eq_cases(rng, count, sizes):
             r[i], r[i + 1] = r[i + 1], r[i]
         out.append({"n": n, "a": a, "b": b, "how": k, "off": [0, 100][k % 2]})
     return out
+
+
+# tie penalties that are a fraction (1/8, 1/4, 1/2, 3/4) or a multiple (2) of the order penalty: with 4 rankings and more,
+# the cost of the majority order of a pair can EQUAL the cost of tying it
+FRACTIONAL = [([0, 8, 8, 0, 8, 8], [k, k, 0, k, k, 0], 8) for k in (1, 2, 4, 6, 16)] + \
+             [([0, 8, 8, 0, 0, 0], [k, k, 0, 0, 0, 0], 8) for k in (2, 4)] + \
+             [([0, 8, k, 0, 8, 0], [k, k, 0, k, k, 0], 8) for k in (2, 4)]
+
+
+def split_votes(rng, n=None, m=None, ties=False):
+    """4 to 12 rankings over 3-4 elements with evenly or 3-to-1 split votes (a ranking and its reverse, duplicates), in
+    a random order: pairs whose two orders, or whose majority order and tie, cost exactly the same"""
+    n = n or rng.randint(3, 4)
+    m = m or rng.choice((4, 5, 6, 6, 7, 7, 9, 10, 11, 12))
+    elems = list(range(1, n + 1))
+
+    def one():
+        p = elems[:]
+        rng.shuffle(p)
+        if not ties:
+            return [[e] for e in p]
+        r, cur = [], []
+        for e in p:
+            cur.append(e)
+            if rng.random() < .6:
+                r.append(sorted(cur))
+                cur = []
+        if cur:
+            r.append(sorted(cur))
+        return r
+    D = []
+    while len(D) < m:
+        r = one()
+        u = rng.random()
+        D.append(r)
+        if u < .4 and len(D) < m:
+            D.append(list(reversed(r)))
+        elif u < .7:
+            while len(D) < m and rng.random() < .6:
+                D.append([list(b) for b in r])
+    rng.shuffle(D)
+    return D[:m]
